@@ -11,7 +11,9 @@ SPEC = dict(
                "tied to the crate by running both on the same generated histories (sizes 1..2^16 bits incl. non-multiples of 64, "
                "1..16 hashes, several seeds, items of type i64, &str / String (lengths 0..100 incl. 31/32/33/63/64/95), (u64,u64), (u64,u64,u64,u64), &[u8], u128 - so that XxHash64 is fed by several and by long write calls -, up to 6 filters per case, debug + release) and comparing every observation "
                "(contains, bits_used, capacity, full serialized images, deserialization of foreign/dirty/damaged images), and the "
-               "property itself (a position set kept independently of the model) is evaluated on the crate's observations.",
+               "property itself (a position set kept independently of the model) is evaluated on the crate's observations: every observation is "
+               "judged in full (shape included) and a panic counts against the property unless the Spec predicts it (builder arguments out of "
+               "range, union / intersect of incompatible filters - which the generator produces on purpose).",
     level_note="No theorem for the statistical half of C09 (measured false-positive rate of with_accuracy(n, p) near p): it is a claim "
                "about the distribution of XXH64 outputs and about ln-based sizing. It is only measured as a test: bloom-fpp cases build "
                "with_accuracy(n, p), insert n items, probe 4n never-inserted items and require the count to equal the position-set "
